@@ -153,6 +153,7 @@ def gen(seed, index, tier):
                 badspec.append(e)
         faults.extend(fl)
     # sometimes a UMN link file also talks about the unservable entry (hides it, titles it)
+    kinds = list(kinds)
     if rng.random() < 0.3 and not any(e["p"] == pre + ".names" for e in base):
         blocks = []
         for b in bad:
@@ -162,7 +163,9 @@ def gen(seed, index, tier):
                                       "Path=./%s\nName=Titled %s\nNumb=%d\n" % (b, b, rng.randrange(1, 4)),
                                       "Path=./%s\nType=X\n\nPath=./%s\nName=Again\n" % (b, b)]))
         if blocks:
-            base.append({"p": pre + ".names", "k": "file", "d": "\n".join(blocks)})
+            # metadata about the unservable entries is part of the faulty world, not of the reference
+            badspec.append({"p": pre + ".names", "k": "file", "d": "\n".join(blocks)})
+            kinds = kinds + ["link-block-names-it"]
     return {
         "spec": base, "bad_spec": badspec, "bad": bad, "kinds": kinds, "faults": faults,
         "dir": dname, "proto": rng.choice(proto.LISTING_PROTOCOLS),
@@ -175,6 +178,9 @@ def gen(seed, index, tier):
 def _strip_bad(entries, sc):
     pre = "/" + (sc["dir"] + "/" if sc["dir"] else "")
     targets = set((pre + b).encode("utf-8", "surrogateescape") for b in sc["bad"])
+    # every file that only exists in the faulty world (e.g. a link file about the bad entry, which the
+    # plain DirHandler lists)
+    targets |= set(("/" + e["p"]).encode("utf-8", "surrogateescape") for e in sc["bad_spec"])
     # (the abstract lines of a faulty entry's own sidecar go with it)
     return [e for e in entries if not (e[0] == "link" and e[2] in targets)
             and not (e[0] == "info" and e[1].strip() == b"about it")]
